@@ -33,19 +33,26 @@ import (
 	"filippo.io/age/zverif/keys"
 	"filippo.io/age/zverif/mon"
 	"filippo.io/age/zverif/refage"
+	"golang.org/x/crypto/ssh"
 )
 
 // idKind is one kind of identity that can be put in a list.
 type idKind struct {
 	name string
 	enc  string // key file for an EncryptedSSHIdentity, "" for a plain identity
-	key  *party
+	key  *party // the (declared) public key
+	// an inconsistent identity: declared public key pub, which is not the key
+	// stored in the file
+	pub      ssh.PublicKey
+	mismatch bool
+	stored   *party
 }
 
 // hdr is a header: the parties of its stanzas in order, nil = a stanza of an
 // unknown type.
 type hdr struct {
 	nearTag bool // holds a near-tag stanza (tagvar.go)
+	neg     bool // for the identity that declares the negation of its stored key
 	names   []string
 	parties []*party
 	stanzas []refage.Stanza
@@ -122,7 +129,11 @@ func newLive(k *idKind, p pass) (*liveID, error) {
 		l.id = k.key.plain
 		return l, nil
 	}
-	id, err := agessh.NewEncryptedSSHIdentity(keys.EncPub(k.enc), keys.Data(k.enc), func() ([]byte, error) {
+	pub := k.pub
+	if pub == nil {
+		pub = keys.EncPub(k.enc)
+	}
+	id, err := agessh.NewEncryptedSSHIdentity(pub, keys.Data(k.enc), func() ([]byte, error) {
 		l.prompts++
 		return step{p: l.p}.answer()
 	})
@@ -153,7 +164,8 @@ func listModel(h *hdr, ids []*liveID) (prompts []int, strict []bool, class strin
 		class = clsPlain
 		if l.kind.enc != "" {
 			prompts[j] = 1
-			if l.p != right {
+			if l.p != right || l.kind.mismatch {
+				// wrong passphrase, or the stored key is not the declared one: a hard error ends the call
 				class = clsError
 			}
 		}
@@ -244,7 +256,7 @@ func precededBy(ids []*liveID, j int) string {
 	return "after-plain-identities"
 }
 
-func multiStages(r *mon.Run, ps map[string]*party) {
+func multiStages(r *mon.Run, ps map[string]*party, negKind *idKind) {
 	pool := []*party{ps["X1"], ps["enc_ed1"], ps["enc_rsa1"], ps["ed1"], ps["rsa1"], nil}
 	var hdrs []*hdr
 	maxH := r.Pick(3, 4)
@@ -273,41 +285,75 @@ func multiStages(r *mon.Run, ps map[string]*party) {
 			}
 		}
 	}
+	// an identity whose declared key is the negation of its stored Ed25519 key
+	if negKind != nil {
+		nd, A, X, R1 := negKind.key, ps["enc_ed1"], ps["X1"], ps["rsa1"]
+		for _, sel := range [][]*party{{nd, X}, {X, nd}, {nd, A}, {A, nd}, {A, X}, {nd, R1}} {
+			hdrs = append(hdrs, &hdr{parties: sel, neg: true})
+		}
+	}
 	mon.Par(len(hdrs), func(i int) {
-		nt := hdrs[i].nearTag
+		nt, ng := hdrs[i].nearTag, hdrs[i].neg
+		defer func() { hdrs[i].neg = ng }()
 		hdrs[i] = buildHdr(hdrs[i].parties)
 		hdrs[i].nearTag = nt
 	})
 
 	kinds := []*idKind{
-		{"encrypted-ed25519", "enc_ed1", ps["enc_ed1"]},
-		{"encrypted-rsa", "enc_rsa1", ps["enc_rsa1"]},
-		{"plain-x25519", "", ps["X1"]},
-		{"plain-ssh-ed25519", "", ps["ed1"]},
+		{name: "encrypted-ed25519", enc: "enc_ed1", key: ps["enc_ed1"]},
+		{name: "encrypted-rsa", enc: "enc_rsa1", key: ps["enc_rsa1"]},
+		{name: "plain-x25519", key: ps["X1"]},
+		{name: "plain-ssh-ed25519", key: ps["ed1"]},
 	}
 	if r.Thorough() {
-		kinds = append(kinds, &idKind{"plain-ssh-rsa", "", ps["rsa1"]})
+		kinds = append(kinds, &idKind{name: "plain-ssh-rsa", key: ps["rsa1"]})
 	}
 	var lists [][]int
 	for k := 2; k <= 3; k++ {
 		perms(len(kinds), k, func(ix []int) { lists = append(lists, ix) })
 	}
+	var negLists [][]int
+	if negKind != nil {
+		kinds = append(kinds, negKind)
+		n := len(kinds) - 1
+		negLists = [][]int{{n, 2}, {2, n}, {n, 1}, {1, n}} // with plain-x25519 and with encrypted-rsa, both orders
+	}
 	r.Set("multi_headers", len(hdrs))
 	r.Set("multi_identity_lists", len(lists))
 
 	fs := newFindings()
-	type job struct{ h, l int }
+	type job struct {
+		h  int
+		ix []int
+	}
 	var jobs []job
 	for h := range hdrs {
+		if hdrs[h].neg {
+			for _, ix := range negLists {
+				jobs = append(jobs, job{h, ix})
+			}
+			continue
+		}
 		for l := range lists {
 			if hdrs[h].nearTag && len(lists[l]) > 2 {
 				continue
 			}
-			jobs = append(jobs, job{h, l})
+			// quick: every pair of a 2-stanza header with every list; a third of
+			// the rest (half of the near-tag headers' pairs)
+			if !r.Thorough() {
+				if hdrs[h].nearTag && mix(h, l)%2 != 0 {
+					continue
+				}
+				if !hdrs[h].nearTag && len(hdrs[h].parties) > 2 && mix(h, l)%3 != 0 {
+					continue
+				}
+			}
+			jobs = append(jobs, job{h, lists[l]})
 		}
 	}
+	r.Set("multi_header_x_list_cases", len(jobs))
 	mon.Par(len(jobs), func(i int) {
-		h, ix := hdrs[jobs[i].h], lists[jobs[i].l]
+		h, ix := hdrs[jobs[i].h], jobs[i].ix
 		mk := func(variant int) []*liveID {
 			ids := make([]*liveID, len(ix))
 			for j, x := range ix {
@@ -472,20 +518,32 @@ func unwrapCase(r *mon.Run, fs *findings, h *hdr, ids []*liveID) {
 	}
 	seq := append(append([]*liveID(nil), ids...), ids[0])
 	models := map[*liveID]*model{}
+	variants := map[*liveID]*model{} // "the mismatched key is cached" (F7), to name that defect
 	name := fmt.Sprintf("header [%s] Unwrap sequence [%s,%s again]", strings.Join(h.names, ","), strings.Join(listNames(ids), ","), ids[0].kind.name)
 	r.Eval(1)
 	r.Distinct("unwrap|" + name)
 	for j, l := range seq {
 		m := models[l]
 		if m == nil {
-			m = &model{consistent: true}
+			m = &model{consistent: !l.kind.mismatch}
 			models[l] = m
 		}
 		has := h.has(l.kind.key)
 		state := m.label()
 		want := pred{0, clsNoMatch}
+		wantV := want
 		if l.kind.enc != "" {
-			want = m.step(has, has, l.p)
+			hasS := has
+			if l.kind.mismatch {
+				hasS = l.kind.stored != nil && h.has(l.kind.stored)
+			}
+			v := variants[l]
+			if v == nil {
+				v = &model{consistent: !l.kind.mismatch, cacheOnMismatch: true}
+				variants[l] = v
+			}
+			want = m.step(has, hasS, l.p)
+			wantV = v.step(has, hasS, l.p)
 		} else if has {
 			want.class = clsPlain
 		}
@@ -549,6 +607,9 @@ func unwrapCase(r *mon.Run, fs *findings, h *hdr, ids []*liveID) {
 			key := fmt.Sprintf("unwrap:%s:%s:prompts=%d->%d", kindClass(l.kind), state, want.prompts, got.prompts)
 			if got.prompts == want.prompts {
 				key = fmt.Sprintf("unwrap:%s:%s:outcome=%s->%s", kindClass(l.kind), state, want.class, got.class)
+			}
+			if l.kind.mismatch && got == wantV {
+				key = F7Key
 			}
 			fs.add(&finding{key: key, n: len(h.names) + j,
 				what: fmt.Sprintf("%s: call %d (%s) expected %s, observed %s (%s)", name, j, l.kind.name, fmtPred(want.prompts, want.class), fmtPred(got.prompts, got.class), detail), replay: replay})
